@@ -442,15 +442,22 @@ def _r5(ctx):
     ctx.decide({"coordinates", "time", "cell_lengths", "cell_angles"} <= created, "C01-R5", init, rel, cls + "._initialize_headers", "variables created under the names used", "", "created: %s" % sorted(created))
     rel, cls = F.rel_cls("h5")
     w, r = F.method(ctx, "h5", "write"), F.method(ctx, "h5", "read")
-    names = None
-    for n in walk_no_nested(w):
-        if isinstance(n, ast.For) and isinstance(n.iter, ast.List) and "coordinates" in src(n.iter):
-            names = const(n.iter)
-        if isinstance(n, ast.Dict) and any(const(k) == "coordinates" for k in n.keys):
-            names = [const(k) for k in n.keys]
+    # writer side by evaluation (sa/h5model.py): every array handed to write() is appended, unchanged, to the node of its own name
+    from .. import h5model as H
+    from ..tensym import Ten
+    from ..pysym import Unsupported as PUnsupported
     rnames = {const(n.args[0]) for n in ast.walk(r) if isinstance(n, ast.Call) and call_name(n) == "get_field" and n.args}
-    for v in ("coordinates", "time", "cell_lengths", "cell_angles"):
-        ctx.decide(names is not None and v in names and v in rnames, "C01-R5", w, rel, cls, "node %s written and read" % v, "", "HDF5 node %s: written=%s read=%s" % (v, names and v in names, v in rnames))
+    try:
+        arr = H.arrays()
+        res = H.run_write(ctx, arr)
+        app = {l_[1]: l_[2] for l_ in res["log"] if l_[0] == "append"}
+        for v in ("coordinates", "time", "cell_lengths", "cell_angles"):
+            got = app.get(H.NODE_OF[v])
+            okw = res["raised"] is None and isinstance(got, Ten) and got.shape == arr[v].shape and all((a_ - b_).n.is_zero() for a_, b_ in zip(got.data, arr[v].data))
+            ctx.decide(okw and v in rnames, "C01-R5", w, rel, cls, "node %s written and read" % v, "",
+                       "HDF5 node %s: written=%s read=%s" % (v, ("refused: %s" % res["raised"][:60]) if res["raised"] else ("the array given" if okw else "another array" if got is not None else None), v in rnames))
+    except PUnsupported as e:
+        ctx.undecided("C01-R5", w, rel, cls, "nodes written", "write() not evaluable: %s" % e)
 
 
 def r7_time_text(ctx):
